@@ -32,8 +32,6 @@ package render
 //@   ensures @page pageOk(pg)
 //@   ensures[C05,C08] @cachekept cache.sameScopes(cac(pg.cache)) && cache.unique(cac(pg.cache))
 //@     && (old(cache.sized(cac(pg.cache))) ==> cache.sized(cac(pg.cache)))
-//@     && (old(cache.acct(cac(pg.cache)) && cache.capped(cac(pg.cache))) ==> cache.acct(cac(pg.cache)) && cache.capped(cac(pg.cache)))
-//@   use tsumSame(cac(pg.cache).Cache, 0, len(cac(pg.cache).Cache))
 //@   ensures[C05] @mapped result == nil ==> cache.visible(cac(pg.cache), key) && in(key, pg.cacheMap)
 //@     && pg.cacheMap[key] == cac(pg.cache).Cache[cache.scope(cac(pg.cache), key)][key]
 //@   ensures[C05] @refused result != nil ==> in(key, pg.cacheMap) == old(in(key, pg.cacheMap)) && pg.cacheMap[key] == old(pg.cacheMap[key])
